@@ -304,21 +304,56 @@ def run_subprocess(spec, cfg, workdir, result_file=None, side=None, faults=None,
     try: timeout = timeout * max(1.0, 2.0 * os.getloadavg()[0] / (os.cpu_count() or 1))
     except OSError: pass
     with open(errp, "w") as ef:
-        proc = subprocess.Popen([sys.executable, "-W", "ignore", "-m", "vf.expkit", ip, op], stdout=ef, stderr=ef, stdin=subprocess.DEVNULL, start_new_session=True)
+        stackdir = os.path.join(workdir, "stacks"); os.makedirs(stackdir, exist_ok=True)
+        for fn in os.listdir(stackdir): os.remove(os.path.join(stackdir, fn))
+        proc = subprocess.Popen([sys.executable, "-W", "ignore", "-m", "vf.expkit", ip, op], stdout=ef, stderr=ef, stdin=subprocess.DEVNULL, start_new_session=True,
+                                env={**os.environ, "VERIF_STACKDIR": stackdir})
         try: proc.wait(timeout=timeout)
         except subprocess.TimeoutExpired:
+            group = _dump_group(proc.pid, stackdir)
             try: os.killpg(proc.pid, 9)
             except Exception: pass
             proc.wait()
             try: ef.flush(); stacks = open(errp).read()[-6000:]
             except Exception: stacks = ""
-            WATCHDOG_LOG.append({"cfg": list(cfg), "timeout_s": round(timeout), "stacks": stacks})
-            return {"status": "timeout", "stacks": stacks}
+            WATCHDOG_LOG.append({"cfg": list(cfg), "timeout_s": round(timeout), "stacks": stacks, "group": group})
+            keep = os.environ.get("VERIF_KEEP_WATCHDOG")
+            if keep:
+                try:
+                    with open(os.path.join(keep, f"watchdog-{os.getpid()}-{len(WATCHDOG_LOG)}.json"), "w") as kf:
+                        json.dump({"spec": spec, "cfg": list(cfg), "faults": faults, "only_triple": only_triple, "pre": pre, "stacks": stacks, "group": group}, kf, default=repr)
+                except Exception: pass
+            return {"status": "timeout", "stacks": stacks, "group": group}
         finally:
             try: os.killpg(proc.pid, 9)
             except Exception: pass
     if not os.path.exists(op): return {"status": "no-output", "stderr": open(errp).read()[-1500:]}
     return json.load(open(op))
+
+def _dump_group(pgid, stackdir):
+    """the processes of the case's process group as the watchdog found them: state, command line and -- for those that imported
+       vf.components -- the stacks of all their threads (SIGUSR1 -> faulthandler)"""
+    import signal
+    out = []
+    try:
+        for pid in [int(x) for x in os.listdir("/proc") if x.isdigit()]:
+            try:
+                st = open(f"/proc/{pid}/stat").read()
+                fields = st[st.rindex(")") + 2:].split()
+                if int(fields[2]) != pgid: continue
+                cmd = open(f"/proc/{pid}/cmdline").read().replace("\0", " ")[:160]
+                out.append({"pid": pid, "ppid": int(fields[1]), "state": fields[0], "cmd": cmd})
+            except Exception: continue
+        for e in out:
+            try: os.kill(e["pid"], signal.SIGUSR1)
+            except Exception: pass
+        time.sleep(1.0)
+        for e in out:
+            try: e["stack"] = open(os.path.join(stackdir, f"stack.{e['pid']}")).read()[-5000:]
+            except Exception: e["stack"] = None
+    except Exception as ex:
+        out.append({"error": repr(ex)})
+    return out
 
 def read_side(side):
     out = []
